@@ -121,6 +121,7 @@ Plan capacity_generate(uint64_t base, const std::string &prop, uint64_t index, i
         for (auto &o : p.ops) if ((o.code == W_BYTES || o.code == W_STRING_LEN || o.code == W_RAW) && ro.chance(1, 6)) o.c = 1 + (int64_t)ro.below(ro.chance(1, 2) ? 3 : 20);      // value prepared in place, 0..19 bytes ahead
         p.note = "token soup";
     }
+    { Rng rn = r.fork("nullptr"); for (auto &o : p.ops) if ((o.code == W_BYTES || o.code == W_STRING_LEN) && o.b.empty() && o.c == 0 && rn.chance(1, 2)) o.c = -1; }   // an empty value has no storage: NULL pointer, length 0
     if (prop == "C09") {
         // arbitrary further calls after the first failure, including ones that would fit, and the NULL error class
         int n = 1 + (int)ro.below(8);
